@@ -9,6 +9,8 @@
 #include <csignal>
 #include <unistd.h>
 #include <omp.h>
+#include <amgcl/value_type/static_matrix.hpp>
+#include <amgcl/adapter/crs_tuple.hpp>
 #define private public
 #include <amgcl/preconditioner/dummy.hpp>
 #include <amgcl/preconditioner/cpr.hpp>
@@ -167,6 +169,67 @@ static int r_cpr_partial(const Witness &) {
     return 0;
 }
 
+
+// ------------------------------------------------------------------------------------------------
+// cpr on a block-valued backend: init(K, bprm, false_type) and update_transfer(K, bprm, false_type).
+// The witness gives the block pattern (n block rows); every stored block gets generic NON-symmetric values
+// (diagonal blocks dominant).  Oracle: row i of Fpp = first row of inv(D_i), dense Gauss with partial pivoting.
+template <int B>
+static int cpr_block_run(const Crs &Kp, size_t ar) {
+    typedef static_matrix<double, B, B> val_type;
+    typedef backend::builtin<val_type, ptrdiff_t, ptrdiff_t> SBackend;
+    typedef preconditioner::dummy<SBackend> SDummy;
+    typedef preconditioner::cpr<Dummy, SDummy> BCPR;
+    const size_t n = Kp.nrows, N = ar ? ar : n;
+    std::vector<ptrdiff_t> ptr(Kp.ptr, Kp.ptr + n + 1), col(Kp.col, Kp.col + Kp.ptr[n]);
+    std::vector<val_type> val(Kp.ptr[n]);
+    for (size_t i = 0; i < n; ++i) for (ptrdiff_t j = ptr[i]; j < ptr[i + 1]; ++j)
+        for (int r = 0; r < B; ++r) for (int c = 0; c < B; ++c)
+            val[j](r, c) = ((size_t)col[j] == i && r == c ? 4.0 + 0.5 * r + 0.25 * i : 0.0) + 0.125 * (r + 1) - 0.3 * c + 0.0625 * (j % 5) * (r - 2 * c);
+    auto K = std::make_shared<backend::crs<val_type, ptrdiff_t, ptrdiff_t> >(std::make_tuple(n, ptr, col, val));
+    typename BCPR::params prm; prm.active_rows = ar;
+    BCPR P(K, prm);
+    for (int stage = 0; stage < 2; ++stage) {
+        if (stage == 1) P.partial_update(*K, true);
+        const char *what = stage ? "after partial_update(K)" : "after construction";
+        const Crs &F = *P.Fpp;
+        if (F.nrows != N || F.ncols != N * B) FAIL("block CPR " << what << ": Fpp is " << F.nrows << "x" << F.ncols << ", expected " << N << "x" << N * B);
+        for (size_t i = 0; i < N; ++i) {
+            ptrdiff_t jd = -1;
+            for (ptrdiff_t j = ptr[i]; j < ptr[i + 1]; ++j) if ((size_t)col[j] == i) { jd = j; break; }
+            if (jd < 0) { std::cout << "  cell " << i << ": no stored diagonal block, not compared" << std::endl; continue; }
+            // first row of inv(D): solve D^T w = e0
+            double T[B * B], b[B], w[B];
+            for (int r = 0; r < B; ++r) { b[r] = (r == 0); for (int c = 0; c < B; ++c) T[r * B + c] = val[jd](c, r); }
+            for (int k = 0; k < B; ++k) {
+                int p = k; for (int r = k + 1; r < B; ++r) if (std::fabs(T[r * B + k]) > std::fabs(T[p * B + k])) p = r;
+                if (p != k) { for (int c = 0; c < B; ++c) std::swap(T[k * B + c], T[p * B + c]); std::swap(b[k], b[p]); }
+                for (int r = k + 1; r < B; ++r) { double l = T[r * B + k] / T[k * B + k]; for (int c = k; c < B; ++c) T[r * B + c] -= l * T[k * B + c]; b[r] -= l * b[k]; }
+            }
+            for (int r = B; r-- > 0;) { double sum = b[r]; for (int c = r + 1; c < B; ++c) sum -= T[r * B + c] * w[c]; w[r] = sum / T[r * B + r]; }
+            for (int k = 0; k < B; ++k) {
+                if (F.col[i * B + k] != (ptrdiff_t)(i * B + k)) FAIL("block CPR " << what << ": Fpp row " << i << " column " << F.col[i * B + k]);
+                if (!close_to(F.val[i * B + k], w[k])) FAIL("block CPR " << what << " (block size " << B << "): Fpp(" << i << "," << i * B + k << ") = " << F.val[i * B + k]
+                    << " but the first ROW of the inverse of the diagonal block of cell " << i << " has " << w[k]);
+            }
+        }
+    }
+    std::cout << "block CPR (block size " << B << "): Fpp == first rows of the inverse diagonal blocks after construction and after partial_update" << std::endl;
+    return 0;
+}
+static int r_cpr_block(const Witness &w) {
+    if (!w.has("w_K_nrows")) { std::cout << "no witness input" << std::endl; return 3; }
+    auto K = crs_from(w, "K");
+    const int B = (int)w.num("w_bs", 2);
+    const size_t ar = (size_t)w.num("w_active_rows", 0);
+    std::string why;
+    if (K->nrows != K->ncols || (ar ? ar : K->nrows) > K->nrows || !wf(*K, why)) { std::cout << "witness outside the precondition" << std::endl; return 3; }
+    print_crs("K (block pattern of the witness)", *K);
+    omp_set_dynamic(0); omp_set_num_threads(1);
+    if (B == 3) return cpr_block_run<3>(*K, ar);
+    return cpr_block_run<2>(*K, ar);
+}
+
 // ------------------------------------------------------------------------------------------------
 // deflated_solver: project / apply / operator().  The unit is a call-sequence contract (no numeric witness); the replay
 // evaluates the statement of the property itself on the real class for the witness' number of deflation vectors:
@@ -317,6 +380,7 @@ int main(int argc, char **argv) {
     try {
         if (unit == "cpr_first_scalar_pass") return r_cpr(w);
         if (unit == "cpr_partial_update") return r_cpr_partial(w);
+        if (unit == "cpr_update_transfer_block" || unit == "cpr_init_block") return r_cpr_block(w);
         if (unit == "deflated_project") return r_deflated(w);
         if (unit == "schur_init_blocks" || unit == "schur_init_counts" || unit == "schur_init_fill_row") return r_schur(w, true);
         if (unit == "schur_init_scatter") return r_schur(w, false);
